@@ -1,5 +1,6 @@
 from __future__ import annotations
 
+import copy
 import importlib
 from itertools import product
 
@@ -30,6 +31,25 @@ def _spawn_bitgens(bitgen, n_bitgens):
     seeds = bitgen._seed_seq.spawn(n_bitgens)
     bitgens = [type(bitgen)(seed) for seed in seeds]
     return bitgens
+
+
+def _snapshot_rng(rng):
+    """A copy of ``rng`` whose random state is independent of the original."""
+    snap = copy.copy(rng)
+    if isinstance(rng, Generator):
+        snap._bit_generator = copy.deepcopy(rng._bit_generator)
+    elif isinstance(rng, RandomState):
+        snap._numpy_state = copy.deepcopy(rng._numpy_state)
+    return snap
+
+
+def _advance_rng(rng, n_blocks):
+    """Consume from ``rng`` what ``Random._info`` derives a node's seeds from,
+    so the next array drawn from the same generator is a new realization."""
+    if isinstance(rng, Generator):
+        rng._bit_generator._seed_seq.spawn(n_blocks)
+    elif isinstance(rng, RandomState):
+        rng._numpy_state.bytes(16)
 
 
 def _apply_random_func(rng, funcname, bitgen, size, args, kwargs):
@@ -96,8 +116,21 @@ class Random(IO):
     @cached_property
     def _info(self):
         sizes = list(product(*self._base_chunks))
+        # Derive the per-block seeds from a *copy* of the generator. Spawning
+        # (or drawing) mutates it, and this property is evaluated again each
+        # time the optimizer re-creates the node -- which happens whenever an
+        # array-valued parameter below it is rewritten or lowered.  Reading the
+        # live generator there re-drew the seeds, so the lowered array was a
+        # different realization from the one the collection was named after.
+        # ``_wrap_func`` hands the node a snapshot and advances the user's
+        # generator itself (``_advance_rng``).
+        rng = copy.copy(self.rng)
+        if isinstance(rng, Generator):
+            rng._bit_generator = copy.deepcopy(rng._bit_generator)
+        elif isinstance(rng, RandomState):
+            rng._numpy_state = copy.deepcopy(rng._numpy_state)
         if isinstance(self.rng, Generator):
-            bitgens = _spawn_bitgens(self.rng._bit_generator, len(sizes))
+            bitgens = _spawn_bitgens(rng._bit_generator, len(sizes))
             bitgen_token = tokenize(bitgens)
             bitgens = [_bitgen._seed_seq for _bitgen in bitgens]
             func_applier = _apply_random_func
@@ -108,7 +141,7 @@ class Random(IO):
             # root RNG via one SeedSequence — deterministic from the root, so
             # recompute is stable and da.random.seed still controls it — and let
             # the worker rebuild the state (see _apply_random).
-            root_entropy = int.from_bytes(self.rng._numpy_state.bytes(16), "little")
+            root_entropy = int.from_bytes(rng._numpy_state.bytes(16), "little")
             words = (
                 np.random.SeedSequence(root_entropy)
                 .generate_state(len(sizes) * 4, dtype=np.uint32)
